@@ -74,6 +74,8 @@ def plan(tier, seed):
     n3 = 1500 if tier == 'quick' else 20000
     shards.append({'name': 'w3_a', 'kind': 'w3', 'n': n3, 'seed': seed * 1000 + 1})
     shards.append({'name': 'w3_b', 'kind': 'w3', 'n': n3, 'seed': seed * 1000 + 2})
+    shards.append({'name': 'w3_O', 'kind': 'w3', 'n': 300 if tier == 'quick' else 3000, 'seed': seed * 1000 + 7,
+                   'optimize': True})
     shards.append({'name': 'w2r', 'kind': 'w2r', 'n': 90 if tier == 'quick' else 1500,
                    'seed': seed * 1000 + 4})
     shards.append({'name': 'seq', 'kind': 'seq', 'n': 250 if tier == 'quick' else 3000,
